@@ -150,6 +150,7 @@ def _in_set(test, var, what):
 
 
 def _raises_value_error(body, what):
+    """body is exactly  raise ValueError(...)"""
     if not (len(body) == 1 and isinstance(body[0], ast.Raise) and isinstance(body[0].exc, ast.Call)
             and isinstance(body[0].exc.func, ast.Name) and body[0].exc.func.id == "ValueError"):
         raise TranslateError("%s: the final else does not raise ValueError" % what)
@@ -318,11 +319,22 @@ def extract_projectq(repo):
     _raises_value_error(orelse, "projectq writer")
     shapes = {_dump(_stmt(v)): k for k, v in PQ_WRITE_SHAPES.items()}
     t["wbranches"] = []
+    t["single_ctrl"] = []
     for test, b in chain:
         names = _in_set(test, "gate.name", "projectq writer")
+        b = list(b)
+        # optional guard at the top of the branch:  if len(gate.control) != 1: raise ValueError(...)
+        if len(b) == 2 and isinstance(b[0], ast.If):
+            g = b[0]
+            if not (_dump(g.test) == _dump(_expr("len(gate.control) != 1")) and not g.orelse):
+                raise TranslateError("projectq writer: unexpected guard `%s`" % ast.unparse(g)[:140])
+            _raises_value_error(g.body, "projectq writer guard")
+            t["single_ctrl"].extend(names)
+            b = b[1:]
         if len(b) != 1 or _dump(b[0]) not in shapes:
             raise TranslateError("projectq writer: unexpected branch body `%s`" % ast.unparse(b[0])[:140])
         t["wbranches"].append({"names": names, "shape": shapes[_dump(b[0])]})
+    t["single_ctrl"] = sorted(set(t["single_ctrl"]))
 
     # ---- reader
     r = find_def(tree, "translate_c_from_projectq")
@@ -396,6 +408,7 @@ def emit(t):
          "  pq_names := %s;" % _pairs(p["names"]),
          "  pq_wbranches := [%s];" % "; ".join("(%s, %s)" % (coq_string_list(b["names"]), b["shape"]) for b in p["wbranches"]),
          "  pq_rbranches := [%s];" % "; ".join("(%s, %s)" % (coq_string_list(b["names"]), b["shape"]) for b in p["rbranches"]),
+         "  pq_w_single_ctrl := %s;" % coq_string_list(p["single_ctrl"]),
          "  pq_ignored := %s" % coq_string_list(p["ignored"]),
          "|}."]
     return "\n".join(L) + "\n"
